@@ -3,9 +3,10 @@ SPEC = {
              # the v5 encoder under the real concurrent workers
              {"kind": "pipeline", "quick": 48, "thorough": 1600, "runner": {"pkg": "./vflow", "test": "TestVerifPipeline", "race": False}}],
     "rule": "generated NetFlow v5 datagrams: random header and record contents, counts 0..31, versions 5 and other, lengths "
-            "short / one short / exact / with trailing octets; decoded and marshalled by the real netflow5 code, compared with the "
+            "short / one record short / the last record 1..47 octets short (one case in six) / exact / with trailing octets; decoded and marshalled by the real netflow5 code, compared with the "
             "model (decode result and JSON byte-for-byte); oracle = the abstract packet the datagram was generated from (must be "
-            "returned field for field; a packet that must be rejected yields no flows; the JSON parses back to it). "
+            "returned field for field; a packet that must be rejected yields no flows AND no message: Decode never returns a message together "
+            "with an error, fail:decoded-and-failed (F29); the JSON parses back to it). "
             "non-trivial = the implementation returned a message; distinct = distinct case line",
     "assumptions": ["Go slice semantics of reader.Reader as transcribed in Vflow.Model.Reader (C19)",
                     "factgen's reading of the unmarshal read chains (layouts) and of the encoder's writes"],
@@ -15,12 +16,16 @@ META = {
             "layouts regenerated from netflow/v5/decoder.go, obliged (decide +kernel) to be Cisco's v5 layout (24-octet header, "
             "48-octet record, Go field names in wire order). decode_spec gives the complete outcome of Decode for every input; "
             "decode_encode: version 5, count = number of records in 1..30, values fitting their widths => decode (encodeV5 h fs ++ tail) "
-            "= ok <h, fs> for every tail; decode_ok_flows: flows are returned only for version 5, count in 1..30 and 24+48*count octets "
-            "present, and then exactly count of them (a partial record list never occurs); decoded_header/flow_at_offsets: every "
+            "= ok <h, fs> for every tail; decode_ok_cases / decode_ok_flows / decode_ok_iff: a message is returned exactly for version 5, count "
+            "in 1..30 and 24+48*count octets present, and then with exactly count (>= 1) flows (a header alone or a partial record list never "
+            "occurs); decode_rejected / decode_short_flows: every other datagram - in particular one that is shorter than its header "
+            "announces - is rejected as a whole, (nil, err), no message (F29 repair: until then the header came back as a message "
+            "without flows together with the error); decoded_header/flow_at_offsets: every "
             "decoded field is the big-endian value of its octets at the Cisco offset; readFields_spec/readFields_encFields generic in "
             "the width list. JSON: v5_marshal_eq_render / v5_marshal_valid - the published text is the rendering of v5Tree (9 header "
             "and 20 flow members by name, addresses dotted-quad, exact decimal numbers) and derives it in the RFC 8259 grammar, "
-            "unconditionally. Tied to the real decoder/encoder by correspondence with an independent expected-packet oracle.",
+            "unconditionally. v5_nonfatal_reviewed: over regenerated facts nonfatalError is declared as the struct wrapper and never "
+            "constructed (every v5 error is fatal). Tied to the real decoder/encoder by correspondence with an independent expected-packet oracle.",
     "ref": "DESIGN.md §6 C08",
     "note": "Trusted: Lean kernel; the hand-written model Vflow.Model.V5 (tied to netflow/v5 by correspondence on the decode "
             "result and the JSON bytes); factgen (layouts, write programs); the harness and its generator.",
